@@ -44,6 +44,41 @@ class Table:
     def transpose(self):
         return self.T
 
+    def _arith(self, op, other, swap=False):
+        from sa import absio
+        it_, m = absio.CTX['interp'], absio.CTX['model']
+        return Table([m.binop(it_, op, other, x, None) if swap else m.binop(it_, op, x, other, None) for x in self.items], self.axis)
+
+    def __add__(self, o):
+        return self._arith('add', o)
+
+    __iadd__ = __add__
+
+    def __radd__(self, o):
+        return self._arith('add', o, True)
+
+    def __sub__(self, o):
+        return self._arith('sub', o)
+
+    __isub__ = __sub__
+
+    def __mul__(self, o):
+        return self._arith('mul', o)
+
+    __imul__ = __mul__
+
+    def __rmul__(self, o):
+        return self._arith('mul', o, True)
+
+    def __truediv__(self, o):
+        return self._arith('div', o)
+
+    def astype(self, *a, **k):
+        return self
+
+    def copy(self, *a, **k):
+        return Table(self.items, self.axis)
+
 
 class CoordVar:
     def __init__(self, name: str, aligned=True):
@@ -272,6 +307,8 @@ def run(tier: str) -> Run:
         T.reset()
         model = XyeModel()
         it = Interp(repo, model)
+        from sa import absio as _absio
+        _absio.CTX['interp'], _absio.CTX['model'] = it, model
         fstub = FileStub()
         cfg = f'variances={has_var} ndim={ndim} masks={masked} coords={list(coords)} aligned={[aligned[c] for c in coords]} edges={sorted(edges)} coord={coord_arg} header={header}'
 
@@ -316,6 +353,9 @@ def run(tier: str) -> Run:
             else:
                 x, y, e = table.items
                 want_x = da.coords[sel].values
+                for label, col in (('X', x), ('Y', y)):
+                    if isinstance(col, SVar) and col.hist:
+                        fails['r2'].setdefault('save columns', (cfg, f'{label} column went through floating-point operations {sorted(op for _, op, _ in col.hist)}: coordinate and values must reach the file bit for bit'))
                 if not eq_raw(x, want_x):
                     fails['r5'].setdefault(f'coords={list(coords)} coord={coord_arg}', (cfg, f'X column is {_show(x)}, documented coordinate is {sel!r}'))
                 if not eq_raw(y, da.values):
